@@ -127,6 +127,35 @@ theorem none_is_identity :
   · intro s id hp hf
     simp [run, step, hp, hf, finallyOf]
 
+/-- **A level's timer is installed whenever `timeout is not None`** — whatever levels enclose it
+(there is no elision of a "redundant" inner timer) and, since the state is per task, whatever blocks
+the *creator* of the task was inside of when it created it. -/
+theorem timer_installed_whenever_timed (s s' : State) (id : Nat)
+    (h : step s (.enter id true) = some s') :
+    ∃ l, s'.stack = l :: s.stack ∧ l.id = id ∧ l.timed = true ∧ l.active = true ∧ l.timer = .armed
+      ∧ step s' (.fire id) ≠ none := by
+  simp only [step] at h
+  split at h
+  · injection h with h; subst h
+    refine ⟨_, rfl, rfl, rfl, rfl, rfl, ?_⟩
+    simp [step, findLevel]
+  · cases h
+
+/-- **Tasks are independent.**  An event of task `t` is a step of `t`'s own component, enabled or
+not according to that component alone, and leaves every other task's levels untouched: no other
+task's open block (for instance that of the task which created `t`) can disable, shorten or
+replace a deadline of `t`. -/
+theorem tasks_independent (ms ms' : MState) (t : Nat) (e : Event) (h : mstep ms t e = some ms') :
+    step (ms t) e = some (ms' t) ∧ ∀ u, u ≠ t → ms' u = ms u := by
+  simp only [mstep, Option.map_eq_some_iff] at h
+  obtain ⟨s', hs, hm⟩ := h
+  subst hm
+  exact ⟨by simp [hs], fun u hu => by simp [hu]⟩
+
+theorem mstep_enabled_iff (ms : MState) (t : Nat) (e : Event) :
+    (mstep ms t e).isSome = (step (ms t) e).isSome := by
+  simp [mstep]
+
 /-! ### non-vacuity -/
 
 /-- outer level 0 and inner level 1; the *outer* timer fires while the target sleeps in the inner
@@ -153,5 +182,17 @@ example : run init [.enter 0 true, .fire 0, .exitOk 0, .istep 0 .thrown] = none 
 example : (run init [.enter 0 true, .fire 0, .istep 0 .refused, .istep 0 .refused,
       .istep 0 .refused]).map (fun s => s.stack.map (fun l => (decide (l.ist = .done), l.failed)))
     = some [(true, true)] := by decide
+
+/-- the child-task scenario: task 0 is inside its block (level 0) when task 1 enters its own timed
+block (level 1): task 1 gets its own armed timer, which fires and interrupts task 1 — task 0's level
+is neither consulted nor touched, also after task 0 has left its block. -/
+example :
+    ((mstep minit 0 (.enter 0 true)).bind fun ms =>
+     (mstep ms 1 (.enter 1 true)).bind fun ms =>
+     (mstep ms 0 (.exitOk 0)).bind fun ms =>
+     (mstep ms 1 (.fire 1)).bind fun ms =>
+     (mstep ms 1 (.istep 1 .thrown)).bind fun ms =>
+     (mstep ms 1 (.raise 1))).map (fun ms => ((ms 1).convs, (ms 0).convs, (ms 0).throws.length))
+    = some ([(1, 1)], [], 0) := by decide
 
 end Asynkit.C16
